@@ -62,7 +62,7 @@ fn build_tree(root: &std::path::Path, seed: u64, nfiles: usize, big: bool, crlf:
             0 => 0,
             1..=5 => rng.range(1, 8),
             6..=8 => rng.range(20, 200),
-            _ => if big { rng.range(2000, 8000) } else { rng.range(200, 600) },
+            _ => if big { rng.range(1500, 4000) } else { rng.range(200, 600) },
         };
         let density = *rng.pick(&[0usize, 2, 10, 30, 90]);
         let mut s = String::new();
@@ -446,7 +446,6 @@ fn run_sort(case: &str, ctx: &mut Ctx, drv: &mut Driver, rep: &mut Report) {
     if model != "1" {
         rep.violation(Violation { kind: "model_vs_spec".into(), class: "".into(), tie: "theorem C08_sort".into(), case: case.to_string(), detail: model });
     }
-    let names = BTreeSet::new();
     for _ in 0..3 {
         let outn = run_cmd(&mut mk(n), None);
         rep.eval();
@@ -473,7 +472,6 @@ fn run_sort(case: &str, ctx: &mut Ctx, drv: &mut Driver, rep: &mut Report) {
             });
         }
     }
-    let _ = names;
     remove_tree(&dir);
 }
 
@@ -553,7 +551,7 @@ fn main() {
     let mut drv = Driver::spawn(&args.driver);
     let mut rep = Report::new(
         "C08",
-        "tree: generated trees of 0-40 files (0-8000 lines each, match density 0-90%, up to 3 directory levels, optional slow \
+        "tree: generated trees of 0-40 files (0-4000 lines each, match density 0-90%, up to 3 directory levels, optional slow \
          --pre on a third of the files, optional CRLF files with --crlf) searched with -j1 once and -jN (N in 2..16) 3x (thorough 6x) \
          in modes no-heading, no-heading -C1, heading, heading -C1, -o, -c, -l, --json, --files; sort: --sort/--sortr path with -jN \
          vs -j1; nulldata: the two-file --null-data -C1 witness. Non-trivial: at least two non-empty blocks. Distinct by case text. \
@@ -568,7 +566,7 @@ fn main() {
     }
     if args.replay.is_none() {
         let mut rng = Rng::new(args.seed);
-        let n = args.cases.unwrap_or(if args.thorough { 2500 } else { 260 });
+        let n = args.cases.unwrap_or(if args.thorough { 900 } else { 110 });
         for i in 0..n {
             let case = if i % 8 == 7 {
                 format!("sort seed={} mode={} files={} n={} kind={}", rng.below(1 << 30), rng.pick(MODES), rng.range(2, 30), rng.range(2, 16),
